@@ -220,6 +220,9 @@ def run_check(mod, tier, seed, replay=None, max_judged=6):
         write_evidence(mod, desc, st, tier, seed, t0, capped, violations=0, harness_errors=len(st.harness_errors))
         return 2
 
+    if os.environ.get("VERIF_DUMP_FAILS"):
+        with open(os.environ["VERIF_DUMP_FAILS"], "w") as f:
+            json.dump(st.fails, f, indent=1, default=str)
     known = load_known(prop)
     printed_known = set()
     violations = []
